@@ -230,6 +230,11 @@ def save_replay(pid, name, payload):
     return p
 
 
+# set by bin/check for checks that declare CONFIRM_BY_REPLAY: callable(replay_path) -> False iff replaying the stored
+# case twice gives "no violation" both times (a deviation caused by the loaded machine, not by the code)
+CONFIRM = None
+
+
 def verdict(pid, violations):
     """violations: list of dict(key=..., what=..., replay=path). Prints KNOWN-FINDING / VIOLATION lines.
     Returns (exit_code, n_new, n_known)."""
@@ -246,6 +251,9 @@ def verdict(pid, violations):
             print("KNOWN-FINDING: property=%s key=%s %s" % (pid, k, known[k]))
             kn += 1
         else:
+            if CONFIRM is not None and v.get("replay") and not CONFIRM(v["replay"]):
+                print("note: property=%s key=%s was not repeated by replaying %s (twice); not reported" % (pid, k, v["replay"]))
+                continue
             print("VIOLATION property=%s replay=%s" % (pid, v.get("replay", "")))
             print("  key=%s %s" % (k, v.get("what", "")))
             new += 1
